@@ -276,6 +276,19 @@ def generate():
         writes = fl.calls(lambda c: isinstance(c.func, ast.Attribute) and c.func.attr == 'to_rio_dataset')
         recv = sorted(U(c.func.value) for c in writes)
         okf = recv == sorted([apply_txt, fit_txt])
+        # ... for EVERY block: the corrected block is written unconditionally, the parameter block whenever there is a parameter dataset (no
+        # early exit, no condition on anything remembered from other blocks)
+        pim = fl.params[4] if len(fl.params) > 4 else 'param_im'
+        for st in fl.order:
+            if isinstance(st, ast.Expr) and isinstance(st.value, ast.Call) and isinstance(st.value.func, ast.Attribute) and st.value.func.attr == 'to_rio_dataset':
+                gs = fl.guards(st, raises=True)
+                who = fl.text(st.value.func.value, st)
+                if who == apply_txt:
+                    okf = okf and gs == []
+                elif who == fit_txt:
+                    okf = okf and gs in ([(pim, True)], [(f'{pim} is not None', True)], [(f'not {pim}', False)], [(f'{pim} is None', False)])
+        reads = [s_ for s_ in fl.order if s_ is un[0]]
+        okf = okf and all(fl.guards(s_, raises=True) == [] for s_ in reads)
     out.append(f'Definition gen_block_flow_ok : bool := {"true" if okf else "false"}.     (* read -> fit -> apply; corrected block = apply(source, fit(source, reference)); parameter block = that fit *)')
     # ---------------------------------------------------------------- fuse.process: which model object
     f = find_func(fu, 'RasterFuse', 'process')
